@@ -499,7 +499,13 @@ class Body:
                 elif kind == "yield":
                     out.append({"k": "resume"})
         visit(local, 0)
+        self._last_visited = seen
         return out
+
+    def backward_slice(self, local, through_call=None, max_depth=40):
+        """(origins, visited locals) of the backward slice from `local`."""
+        o = self.backward_origins(local, max_depth=max_depth, through_call=through_call)
+        return o, set(self._last_visited)
 
     # -- `?` handling ------------------------------------------------------------------
     def try_branches(self):
